@@ -207,7 +207,7 @@ func runC07(c *eng.Ctx) {
 		// what is flushed is that capture and that database
 		fl := c.One(f, eng.CallTo(dfT+".flushMemoryDatabase"), "flushMemoryDatabase(capture, frozen)")
 		args := eng.CallArgs(fl.Instr.(*ssa.Call))
-		capMap := args[0]
+		capMap := eng.ThroughHelper(args[0]) // the map may be built by a helper called in the same hold
 		okCap := false
 		for _, ref := range *capMap.Referrers() {
 			if mu, ok := ref.(*ssa.MapUpdate); ok && mu.Map == capMap {
@@ -239,7 +239,7 @@ func runC07(c *eng.Ctx) {
 			mu := s.Instr.(*ssa.MapUpdate)
 			fromCap := eng.DependsOn(mu.Value, func(x ssa.Value) bool {
 				n, ok := x.(*ssa.Next)
-				return ok && n.Iter.(*ssa.Range).X == capMap
+				return ok && (n.Iter.(*ssa.Range).X == args[0] || eng.ThroughHelper(n.Iter.(*ssa.Range).X) == capMap)
 			})
 			c.Check(fromCap, fmt.Sprintf("persist-is-capture[%d]", i), s.Instr, f, "persistSeq becomes the captured (committed) sequence, not a later in-memory one", "value "+p.Desc(mu.Value))
 			c.Check(ls.At(s.Instr).HasField(dfMu, true), fmt.Sprintf("persist-locked[%d]", i), s.Instr, f, "persistSeq is updated under the family mutex", "")
